@@ -135,12 +135,15 @@ def run(ctx):
                         ctx.violation(f"{tag}: decoded values differ from the stored ones", dict(info or {}, window=w, reader=reader, hex=raw.hex() if len(raw) < 3000 else None), {"first_difference": d}, True, size=len(raw), signature={"tag": tag, "reader": reader})
             reqs.append({"op": "read", "hex": raw.hex(), "reader": reader, "window": w})
             meta.append((raw, w, reader, tag, res))
+    spec_reqs, spec_meta = [], []
     # ---- v0.1
     sizes = [1, 2, 3, 5] + ([65536] if not ctx.thorough() else [65535, 65536, 70000])
     for k in range(ctx.pick(25, 200)):
         F = rng.choice(sizes[:4]) if k >= len(sizes) else sizes[k]
         case = gen_v01(rng, F, small=F > 100)
         raw = refenc.v01(case)
+        if len(raw) < 200000:
+            spec_reqs.append({"op": "spec_file", "version": "v01", "pose": case, "fps": case["body"]["fps"]["int"], "frames_field": F % 65536}); spec_meta.append(("v0.1", raw))
         exp = {"header": case["header"], "body": case["body"]}
         info = {"frames": F, "people": case["body"]["people"], "points": case["body"]["points"], "dims": case["body"]["dims"]}
         ctx.sample(dict(info, layout="v0.1", file_bytes=len(raw)))
@@ -162,6 +165,8 @@ def run(ctx):
         valid = rng.random() < 0.8
         h, fps, frames = gen_v00(rng, valid)
         raw = refenc.v00(h, fps, frames)
+        spec_reqs.append({"op": "spec_file", "version": "v00", "header": h, "fps": fps,
+                          "frames": [[{"id": pid % 65536, "blocks": [[x for row in rows for x in row] for rows in comps_]} for pid, comps_ in people] for people in frames]}); spec_meta.append(("v0.0", raw))
         info = {"layout": "v0.0", "frames": len(frames), "people_per_frame": [len(p) for p in frames], "valid": valid}
         if k < 2:
             ctx.sample(dict(info, file_bytes=len(raw)))
@@ -219,6 +224,11 @@ def run(ctx):
                 ctx.violation("a file declaring an unknown version was decoded", {"version_bits": bits, "reader": reader, "hex": raw.hex()}, {}, True, size=1, signature={"version_bits": bits})
             reqs.append({"op": "read", "hex": raw.hex(), "reader": reader, "window": w})
             meta.append((raw, w, reader, "version", res))
+    # ---- the Lean reference encoders (Model/SpecEnc.lean, the ones the decode theorems are about) against the independent Python encoder
+    for (layout, raw), mo in zip(spec_meta, ctx.driver.run(spec_reqs)):
+        ctx.count("spec_encoder:" + layout)
+        if not mo.get("ok") or mo["hex"] != raw.hex():
+            ctx.violation(f"{layout}: the Lean reference encoder and the independent Python encoder produce different files", {"layout": layout, "hex": raw.hex() if len(raw) < 3000 else None}, {"model_hex": (mo.get("hex") or "")[:400]}, False, size=len(raw))
     # ---- correspondence
     outs = ctx.driver.run(reqs)
     for (raw, w, reader, tag, res), mo in zip(meta, outs):
